@@ -163,6 +163,7 @@ func cmdCheck(args []string) int {
 	verif := fs.String("verif", "/verif", "verification directory (evidence, known findings)")
 	overlay := fs.String("overlay", "", "JSON file {abs path: content} of in-memory source overlays (self-test)")
 	noEvidence := fs.Bool("no-evidence", false, "do not write evidence (self-test runs)")
+	tags := fs.String("tags", "", "build tags for loading the repository (second build configuration)")
 	_ = fs.Parse(args)
 	rule := rules[*prop]
 	if rule == nil {
@@ -179,7 +180,7 @@ func cmdCheck(args []string) int {
 		seed, _ = strconv.Atoi(s)
 	}
 	rep := NewReport(*prop, *tier)
-	w, err := Load(*repo, ov, "")
+	w, err := Load(*repo, ov, *tags)
 	if err != nil {
 		fmt.Printf("CHECK-BROKEN cannot load %s: %v\n", *repo, err)
 		return 2
@@ -197,7 +198,7 @@ func cmdCheck(args []string) int {
 		}()
 		rule.Run(w, rep)
 	}()
-	if *tier == "thorough" && *overlay == "" {
+	if *tier == "thorough" && *overlay == "" && *tags == "" {
 		// self-test of the checker: seeded changes must be reported, behaviour-preserving
 		// refactorings must stay silent (each in a separate analyser process, as an overlay)
 		res := selfTest(*prop, *repo, *verif)
